@@ -845,7 +845,7 @@ def _format_value(value: Any) -> str:
 def _write_comment(f: TextIO, comment: str) -> None:
     if comment:
         f.write('# ')
-        f.write('\n# '.join(comment.splitlines()))
+        f.write('\n# '.join(_encode_non_ascii(comment).splitlines()))
         f.write('\n')
 
 
